@@ -228,7 +228,8 @@ def python_typevars(ctx, rep, T):
             continue
         n += 1
         site = {'file': f['file'], 'line': f['line']}
-        regs = [c for c in f['calls'] if c.get('f') == 'add_type_var']
+        # inlined view: the registration loop may sit in a private helper (`self.add_type_vars(&item.generic_types)`)
+        regs = [c for c in ctx.x(f)['calls'] if c.get('f') == 'add_type_var']
         key = f"python:{f['name']}:typevars"
         if not regs:
             rep.fail('H2g', key, f"python: {f['qual']} prints types in the context of the item's generic parameters but never registers them with add_type_var — `T` is used without `T = TypeVar(\"T\")`", site)
@@ -238,7 +239,7 @@ def python_typevars(ctx, rep, T):
         for c in regs:
             frames = c['guard']
             over = [fr for fr in frames if fr.get('k') in ('for', 'closure')]
-            src = vt.show(over[-1].get('over')) if over else ''
+            src = vt.show(vt.strip(over[-1].get('over'))) if over else ''
             full = bool(re.search(r'\.generic_types(\.iter\(\))?(\.cloned\(\))?$', src))
             conds = [fr for fr in frames if fr.get('k') in ('if', 'arm')]
             if full and not conds:
